@@ -318,6 +318,8 @@ class Trial:
         self.load_argv = None
         self.static_cache = None
         self.states_seen = set()
+        self.view = self.db
+        self.deferred = False
 
     # -- helpers ----------------------------------------------------------
     def logline(self, *parts):
@@ -325,6 +327,22 @@ class Trial:
 
     def dump(self, path):
         return dump_mod.dump(path, self.static_cache)
+
+    def observe(self, defer):
+        """Dump of the subject.  With defer=True the subject file is left
+        exactly as the kill left it (hot journal and all): a byte copy is
+        recovered and dumped instead, so that the *next spowtd command* is the
+        one that performs recovery -- possibly under a fault of its own."""
+        if not defer:
+            self.view = self.db
+            return self.dump(self.db)
+        probe = os.path.join(self.dir, "probe.sqlite")
+        _clean_journal(probe)
+        shutil.copyfile(self.db, probe)
+        if os.path.exists(self.db + "-journal"):
+            shutil.copyfile(self.db + "-journal", probe + "-journal")
+        self.view = probe
+        return self.dump(probe)
 
     def state_key(self):
         return "".join("1" if s in self.acked else "0" for s in CANON_ORDER)
@@ -375,6 +393,9 @@ class Trial:
     def run_twin(self, argv):
         _clean_journal(self.twin)
         shutil.copyfile(self.db, self.twin)
+        if os.path.exists(self.db + "-journal"):
+            # hot (or inert) journal: the twin starts from exactly the same files
+            shutil.copyfile(self.db + "-journal", self.twin + "-journal")
         ex = execute(self.twin, argv, self.knobs, None, self.dir, record=True, count_sys=True)
         post = self.dump(self.twin)
         return ex, post
@@ -411,10 +432,12 @@ class Trial:
         return {"layer": "L", "lock": rng.choice(LAYER_KINDS["L"])}
 
     # -- one op ---------------------------------------------------------------
-    def do_op(self, op, argv, fault="draw", expect=None):
+    def do_op(self, op, argv, fault="draw", expect=None, defer=None):
         """Execute one op with invariants.  fault: "draw", None or a plan dict."""
         step = step_of(op)
         pre = self.current
+        jpath = self.db + "-journal"
+        started_hot = os.path.exists(jpath) and os.path.getsize(jpath) > 512 and getattr(self, "deferred", False)
         twin_ex, post = self.run_twin(argv)
         t_out = twin_ex.outcome
         if fault == "draw":
@@ -429,9 +452,20 @@ class Trial:
                 ex.raw_modified = f.read() != pre_raw
             jpath = self.db + "-journal"
             ex.journal_left = os.path.exists(jpath) and os.path.getsize(jpath) > 0
-        after = self.dump(self.db)
+        if defer is None:
+            defer = bool(ex.killed and ex.journal_left and self.rng.random() < 0.5)
+        defer = bool(defer and ex.killed)
+        self.deferred = defer
+        after = self.observe(defer)
         self.current = after
         self.ops.append({"op": op, "argv": argv, "fault": fault})
+        if defer:
+            self.ops[-1]["defer_recovery"] = True
+            self.stats["probe_recovery_left_to_next_command"] += 1
+        if started_hot:
+            self.stats["probe_op_started_on_hot_journal"] += 1
+            if ex.fired or ex.killed:
+                self.stats["probe_fault_in_op_that_recovers_hot_journal"] += 1
         if expect is not None:
             self.ops[-1]["retry_of_previous"] = True
         self.stats["ops"] += 1
@@ -484,13 +518,13 @@ class Trial:
             if t_out.ok:
                 self._check_marker(step, argv, self.twin, detail, "twin")
             if completed:
-                self._check_marker(step, argv, self.db, detail, "subject")
+                self._check_marker(step, argv, self.view, detail, "subject")
                 self.acked[step] = argv
                 self.ack_count[step] += 1
                 self.stats["steps_completed"] += 1
         # markers of acknowledged steps never disappear
         if self.acked:
-            present = dump_mod.markers(self.db)
+            present = dump_mod.markers(self.view)
             for st in self.acked:
                 if present.get(st) is None:
                     raise Violation("I2-marker-of-acknowledged-step-disappeared", dict(detail, step=st))
@@ -604,9 +638,9 @@ class Trial:
                         st["probe_fault_at_commit_call"] += 1
                     if "_zeta" in sql and step in ("rise", "recession"):
                         st["probe_fault_in_second_insert_loop"] += 1
-                    if "grid_time_flags" in sql:
-                        flags_before = sum(1 for _k, s in twin_ex.sql_log[:fault["at"]] if "grid_time_flags" in s)
-                        if flags_before >= 1:
+                    if step == "classify":
+                        flags_before = sum(1 for _k, s in twin_ex.sql_log[:fault["at"] + 1] if "grid_time_flags" in s)
+                        if flags_before >= 2:
                             st["probe_fault_in_stretch_2plus_of_classify"] += 1
             else:
                 st["fault_not_reached"] += 1
@@ -680,7 +714,8 @@ class Trial:
         pending = None
         for rec in ops[1:]:
             expect = pending if (rec.get("retry_of_previous") and pending is not None) else None
-            _ex, pending = self.do_op(rec["op"], rec["argv"], rec.get("fault"), expect=expect)
+            _ex, pending = self.do_op(rec["op"], rec["argv"], rec.get("fault"), expect=expect,
+                                      defer=bool(rec.get("defer_recovery")))
 
     def replay_record(self, violation):
         ops = [dict(rec) for rec in self.ops]
@@ -717,7 +752,7 @@ def replay_ops(rep, directory):
 # ---------------------------------------------------------------------------
 
 def sweep(seed, directory, step, prefix_steps, spec=None, knobs=None, layers=("A", "C", "B"), b_stride=None,
-          field=None, max_positions=None):
+          field=None, max_positions=None, hot=False):
     """Bring a dataset to a pre-state, then fail `step` at every position.
 
     Returns (stats, distinct, violations[list of (Violation, replay record)], sample).
@@ -738,13 +773,36 @@ def sweep(seed, directory, step, prefix_steps, spec=None, knobs=None, layers=("A
     except Violation as v:
         violations.append((v, trial.replay_record(v)))
         return trial.stats, trial.distinct, violations, None
+    argv = op_argv(step, trial.knobs, trial.load_argv)
+    if hot:
+        # pre-state = the files exactly as a kill in the middle of COMMIT left them:
+        # every swept fault then lands in (or after) hot-journal recovery
+        if not sysfault.available():
+            stats["sweep_hot_unavailable"] += 1
+            return trial.stats + stats, trial.distinct, violations, None
+        twin0, _post0 = trial.run_twin(argv)
+        ks = [i for i, e in enumerate(twin0.sys_log) if e[0] == "p" and e[1] == "d"]
+        if not ks or not twin0.outcome.ok:
+            stats["sweep_hot_unavailable"] += 1
+            return trial.stats + stats, trial.distinct, violations, None
+        k = rng.choice(ks[:max(1, len(ks) // 2)])
+        try:
+            trial.do_op(step, argv, {"layer": "C", "kind": "kill_after", "at": k, "of": twin0.syscalls}, defer=True)
+        except Violation as v:
+            violations.append((v, trial.replay_record(v)))
+            return trial.stats + stats, trial.distinct, violations, None
+        stats["sweep_hot_prestates"] += 1
     prefix_ops = list(trial.ops)
     pre_path = os.path.join(directory, "prestate.sqlite")
     shutil.copyfile(trial.db, pre_path)
+    pre_journal = None
+    if os.path.exists(trial.db + "-journal"):
+        pre_journal = pre_path + "-journal"
+        shutil.copyfile(trial.db + "-journal", pre_journal)
+    pre_deferred = trial.deferred
     pre = trial.current
     pre_acked = dict(trial.acked)
     pre_ack_count = collections.Counter(trial.ack_count)
-    argv = op_argv(step, trial.knobs, trial.load_argv)
     twin_ex, post = trial.run_twin(argv)
     plans = []
     if "A" in layers:
@@ -773,6 +831,9 @@ def sweep(seed, directory, step, prefix_steps, spec=None, knobs=None, layers=("A
         # restore the pre-state
         _clean_journal(trial.db)
         shutil.copyfile(pre_path, trial.db)
+        if pre_journal:
+            shutil.copyfile(pre_journal, trial.db + "-journal")
+        trial.deferred = pre_deferred
         trial.current = pre
         trial.acked = dict(pre_acked)
         trial.ack_count = collections.Counter(pre_ack_count)
@@ -785,7 +846,7 @@ def sweep(seed, directory, step, prefix_steps, spec=None, knobs=None, layers=("A
             violations.append((v, trial.replay_record(v)))
             if len(violations) >= 3:
                 break
-    sample = {"kind": "sweep", "dataset": workload.describe(trial.spec), "prefix": list(prefix_steps), "step": step,
+    sample = {"kind": "sweep", "hot_journal_prestate": bool(hot), "dataset": workload.describe(trial.spec), "prefix": list(prefix_steps), "step": step,
               "statements": twin_ex.calls, "callbacks": twin_ex.callbacks, "syscalls": twin_ex.syscalls,
               "plans": len(plans), "cache_pages": trial.knobs.get("cache_pages")}
     return trial.stats + stats, trial.distinct, violations, sample
@@ -833,7 +894,7 @@ def sweep_job(job):
         stats, distinct, violations, sample = sweep(
             job["seed"], directory, job["step"], job["prefix"], layers=job.get("layers", ("A", "C", "B", "L")),
             knobs=None, field=job.get("field"), max_positions=job.get("max_positions"),
-            spec=job.get("spec"))
+            spec=job.get("spec"), hot=bool(job.get("hot")))
     stats = collections.Counter(stats)
     stats["runs"] = 1
     return {"stats": stats, "violations": [_viol_record(v, r) for v, r in violations][:3],
@@ -864,10 +925,17 @@ SWEEP_CASES = [
     ("classify", ("classify",)),
 ]
 
+HOT_SWEEP_CASES = [
+    ("classify", ("set-zeta-grid",)),
+    ("set-zeta-grid", ("classify",)),
+    ("recession", ("classify", "set-zeta-grid")),
+    ("rise", ("classify", "set-zeta-grid", "set-curvature")),
+]
+
 TIERS = {
     # histories: (jobs, per job); fault-free share; sweeps: number of (dataset) samples per sweep case
-    "quick": {"hist": (48, 6), "fault_free_jobs": 8, "sweeps": 1, "sweep_max": 260, "field_hist": 0},
-    "thorough": {"hist": (1600, 10), "fault_free_jobs": 200, "sweeps": 16, "sweep_max": None, "field_hist": 4},
+    "quick": {"hist": (48, 6), "fault_free_jobs": 8, "sweeps": 1, "hot_sweeps": 1, "sweep_max": 260, "field_hist": 0},
+    "thorough": {"hist": (1600, 10), "fault_free_jobs": 200, "sweeps": 16, "hot_sweeps": 8, "sweep_max": None, "field_hist": 4},
 }
 
 RULE = (
@@ -914,6 +982,11 @@ def check(tier, only=None):
                     jobs.append(("sweep", {"seed": runner.derive_seed(seed, "C20", "sweep", rep, ci), "step": step,
                                            "prefix": list(prefix), "max_positions": cfg["sweep_max"],
                                            "want_samples": rep == 0 and ci in (0, 8)}))
+            for rep in range(cfg["hot_sweeps"]):
+                for ci, (step, prefix) in enumerate(HOT_SWEEP_CASES):
+                    jobs.append(("sweep", {"seed": runner.derive_seed(seed, "C20", "hotsweep", rep, ci), "step": step,
+                                           "prefix": list(prefix), "max_positions": cfg["sweep_max"], "hot": True,
+                                           "layers": ("A", "C"), "want_samples": rep == 0 and ci == 0}))
         jobs.sort(key=lambda j: 0 if j[0] == "sweep" else 1)
         for result in runner.run_jobs(_dispatch, jobs):
             report.absorb(result)
